@@ -350,6 +350,26 @@ static void eval_mutant(mctx_t *mc, const uint8_t *h, const char *what)
                 if (r3 != -EBADHEADER) { mon_viol("C09", "reconstruct-accepted-bad-header", "%s: reconstruct (%s) returned %d for a header that is %s (want -EBADHEADER)", what,
                                                   var == 0 ? "destination supplied, another index" : var == 1 ? "destination is the bad fragment itself" : "only two fragments supplied", r3, !acc ? "invalid" : "in opposite byte order"); break; }
             }
+            /* the bad header anywhere in a list longer than the stripe (fragments repeated): position k+m and beyond */
+            if (n <= 30) {
+                for (int var = 0; var < 2; var++) {
+                    char *big[72]; int bc = 0;
+                    for (int i = 0; i < n; i++) if (i != mc->fidx) big[bc++] = (char *)s->frag[i];
+                    if (var == 1) for (int i = 0; i < n && bc < n + 2; i++) if (i != mc->fidx) big[bc++] = (char *)s->frag[i];   /* repeats until the list is longer than the stripe */
+                    else big[bc++] = (char *)s->frag[(mc->fidx + 1) % n];
+                    big[bc++] = (char *)f;                                                                                  /* position >= k+m */
+                    if (var == 1) big[bc++] = (char *)s->frag[(mc->fidx + 2) % n];
+                    char *o3 = NULL; uint64_t l3 = 0;
+                    /* (forced checks only with headers the metadata query rejects: a valid opposite-endian fragment is, under force, merely
+                     *  left out like any other fragment that fails validation - C20 - and the call may succeed without it) */
+                    int d4 = liberasurecode_decode(mc->x->desc, big, bc, s->flen, acc ? 0 : var, &o3, &l3);
+                    mon_count("evaluations", 1); mon_count("decodes_on_mutants", 1);
+                    if (d4 != -EBADHEADER) { mon_viol("C09", "decode-accepted-bad-header", "%s: decode of %d pointers with the bad header at position %d (stripe width %d) returned %d (want -EBADHEADER)", what, bc, var ? bc - 2 : bc - 1, n, d4); if (d4 == 0) liberasurecode_decode_cleanup(mc->x->desc, o3); break; }
+                    int r4 = liberasurecode_reconstruct_fragment(mc->x->desc, big, bc, s->flen, mc->fidx, (char *)of);
+                    mon_count("evaluations", 1); mon_count("reconstructs_on_mutants", 1);
+                    if (r4 != -EBADHEADER) { mon_viol("C09", "reconstruct-accepted-bad-header", "%s: reconstruct from %d pointers with the bad header behind position k+m returned %d (want -EBADHEADER)", what, bc, r4); break; }
+                }
+            }
             /* decode with too few fragments */
             { char *out2 = NULL; uint64_t ol2 = 0; cnt = 0; list[cnt++] = (char *)f;
               int d3 = liberasurecode_decode(mc->x->desc, list, cnt, s->flen, 0, &out2, &ol2);
